@@ -323,7 +323,7 @@ func (ro *Roles) schedulableAgreement(r *Report, rule string) {
 
 func (ro *Roles) runningAgreement(r *Report, rule string) {
 	w := ro.w
-	if !ro.need(r, rule, map[string]*ssa.Function{"pipeline running predicate": ro.PipeRunning, "running predicate": ro.RunPred, "counting function": ro.Count}) {
+	if !ro.need(r, rule, map[string]*ssa.Function{"pipeline running predicate": ro.PipeRunning, "running predicate": ro.RunPred}) {
 		return
 	}
 	fn := ro.PipeRunning
@@ -360,8 +360,13 @@ func (ro *Roles) runningAgreement(r *Report, rule string) {
 		r.Check(okL, rule+".listed", "ListPipelines: Running/Schedulable of the listed pipeline", w.Pos(lp.Pos()), "both flags are computed for the pipeline they are reported for", "ListPipelines reports flags computed for another pipeline or by other predicates")
 	}
 	// sibling agreement: the admission count uses the same predicate
-	uses := len(findCalls(ro.Count, func(_ string, c *ssa.CallCommon) bool { return c.StaticCallee() == ro.RunPred })) > 0
-	r.Check(uses, rule+".same-predicate", FuncName(ro.Count)+" and "+FuncName(fn)+" share the running predicate", w.Pos(ro.Count.Pos()), "both call "+FuncName(ro.RunPred), "the admission count and the reported running flag use different predicates")
+	cfn, _ := ro.countHost()
+	if cfn == nil {
+		r.Undecided(rule+".same-predicate", "counting loop", "-", "no counting function or loop found")
+		return
+	}
+	uses := len(findCalls(cfn, func(_ string, c *ssa.CallCommon) bool { return c.StaticCallee() == ro.RunPred })) > 0
+	r.Check(uses, rule+".same-predicate", FuncName(cfn)+" and "+FuncName(fn)+" share the running predicate", w.Pos(cfn.Pos()), "both call "+FuncName(ro.RunPred), "the admission count and the reported running flag use different predicates")
 }
 
 // ---------------------------------------------------------------------------------
